@@ -201,3 +201,27 @@ func (d *verifDS) Batch(context.Context) (datastore.Batch, error) {
 type gpbftCid = cid.Cid
 
 func makePowerTableCID(pt gpbft.PowerEntries) (cid.Cid, error) { return certs.MakePowerTableCID(pt) }
+
+
+// verifParams picks the store parameters: either a small test frequency
+// (1..3, set on every handle after construction) with a small first instance,
+// or the real default frequency (1440, never overridden, so that open paths
+// run with it too) with a first instance just below a checkpoint multiple.
+func verifParams(maxFirst uint8) (first uint64, freq uint64) {
+	if sym.Bool("real-frequency") {
+		d := sym.Uint8("first-offset")
+		sym.Assume(d <= 3)
+		return sym.PickU64(1437 + uint64(d)), 0
+	}
+	f := sym.Uint8("first")
+	sym.Assume(f <= maxFirst)
+	q := sym.Uint8("freq")
+	sym.Assume(sym.And(q >= 1, q <= 3))
+	return sym.PickU64(uint64(f)), sym.PickU64(uint64(q))
+}
+
+func verifSetFreq(cs *Store, freq uint64) {
+	if cs != nil && freq != 0 {
+		cs.powerTableFrequency = freq
+	}
+}
